@@ -521,9 +521,8 @@ class Forcing(BaseForce):
             for name in self.extra_forcing:
                 self.fields[name] = self._read_field(name, step)
             # self.force_particles(X, Y)
-        else:
-            if step - 1 in self.steps:  # Need new fields
-                i = self.steps.index(step - 1)
+            i = self.steps.index(step)
+            if i + 1 < len(self.steps):  # Need new fields
                 nextstep = self.steps[i + 1]
                 stepdiff = self.stepdiff[i]
                 self.fields["u_new"], self.fields["v_new"] = self._read_velocity(
@@ -541,7 +540,7 @@ class Forcing(BaseForce):
                 # if interpolate_extra_forcing_in_time:
                 #    for name in self.extra_forcing:
                 #        self["d" + name] = (self[name + "new"] - self[name]) / stepdiff
-
+        else:
             # "Ordinary" time step (including self.steps+1)
             if interpolate_velocity_in_time:
                 self.fields["u"] += self.fields["dU"]
